@@ -160,10 +160,31 @@ def run(ctx, replay=None):
                                                        [(e["alias"], e["issuer"], e["key"], e["sig"]) for e in c["tag"]["ents"]]),
                           {"kind": "gen", "case": c, "what": cl["what"], "alias": cl["alias"], "class": c["tag"]["class"], "result": o["result"]})
     fits = sum(1 for o in obs if o["result"] == "ok")
+    # the chain over HISTORIES (an issuer's artifact deleted, its configuration edited, its key stripped, an issuer exchanged, then a run
+    # with the default flags): what the run wrote, and what it left alone, verifies under the issuer's current certificate
+    slice_cov = {}
+    if replay is None:
+        from . import repo
+        plans = [dict(shape="chain", max_env=1, flags="m,c", faults=False, env="Edit,DeleteArt,StripKey,SetIssuer"),
+                 dict(shape="deep", max_env=1, flags="m,c", faults=False, env="DeleteArt,Edit")]
+        if not ctx.quick:
+            plans = [dict(shape="chain", max_env=3, flags="m,c", extra="c,m,o", faults=False, env="Edit,DeleteArt,StripKey,SetIssuer,Truncate"),
+                     dict(shape="star", max_env=2, flags="m,c", faults=False, env="Edit,DeleteArt,StripKey,SetIssuer,EditProfile"),
+                     dict(shape="two", max_env=2, flags="m,c", faults=False, env="Edit,DeleteArt,StripKey,SetIssuer"),
+                     dict(shape="deep", max_env=2, flags="m,c", faults=False, env="Edit,DeleteArt,StripKey,SetIssuer")]
+        nlines = 0
+        for i, kw in enumerate(plans):
+            lines, _ = repo.explore(ctx, "c01ex%d" % i, **kw)
+            bad = repo.judge(ctx, lines, kw["shape"], "c01ex%d" % i)
+            repo.report(ctx, "C01", lines, bad, kw["shape"])
+            nlines += len(lines)
+        slice_cov = {"history_slice_steps": nlines, "history_slice": "runs with the default flags after every user action of {Edit, DeleteArt, StripKey, SetIssuer, ...} "
+                     "on chain / four tiers%s: the certificates written verify, name the issuer byte for byte, carry the right key identifiers, and every gopki-produced "
+                     "certificate of the directory chains to its issuer's current certificate (RepoTrace clauses signature, issuerDnBytes, aki, ski, chainAfterDefault)" % ("" if ctx.quick else " / star / two roots")}
     cov = genjudge.evidence(ctx, obs, stats, cs, kinds,
                             "one evaluation = one forest of configurations run through the real pipeline; every produced certificate verified by the independent "
                             "verifier and judged by ChainJudge.tla; distinct configuration sets",
-                            {"forests_expected_to_succeed_and_did": fits, "forests_that_failed_or_were_expected_to_fail": len(obs) - fits,
+                            {**slice_cov, "forests_expected_to_succeed_and_did": fits, "forests_that_failed_or_were_expected_to_fail": len(obs) - fits,
                              "explanation": "two-level trees over issuer key x subject key x signature algorithm (fits and misfits), roots over key x signature, "
                                             "seeded forests of 3-6 entities with distinct DNs (some names reused on purpose), nested paths, with/without profile; chains with coinciding names (subject = issuer's subject with another key, twins); imported issuers with four subject string types"})
     return ctx.finish("exploration", cov, ["signature arithmetic itself is trusted to the standard library / package ecv; the specification decides which verification must succeed",
